@@ -13,6 +13,11 @@
 
 using namespace pbt;
 
+// Keep the resident set small (16 shards run in parallel on a shared host): a bounded ASan
+// quarantine instead of the default 256 MB, and 12-frame allocation stacks (rapidcheck's deep, varying
+// call stacks otherwise fill the stack depot with ~20 KB per case).  ASAN_OPTIONS from ./check still apply.
+extern "C" const char *__asan_default_options() { return "quarantine_size_mb=16:malloc_context_size=12"; }
+
 // ---------------------------------------------------------------- primitives (OpenSSL)
 static std::string sha256(const std::string &d) {
   unsigned char o[32];
